@@ -118,6 +118,82 @@ func c07sched(c *core.Ctx) {
 			vsched.Logf("ok")
 		}})
 	}
+	// a resumed session: the UNSUBSCRIBE (or a SUBSCRIBE that lowers the QoS) is
+	// pipelined right behind the CONNECT, while the broker restores the session's
+	// subscriptions
+	for _, kind := range []string{"UNSUBSCRIBE", "SUBSCRIBE at another QoS"} {
+		kind := kind
+		scs = append(scs, scen{"resumed session, " + kind + " pipelined behind the CONNECT, probe at the ack", func() {
+			t := newTD()
+			p := t.connect("P", 0, 65535, false)
+			x1, err := t.w.Dial("X1")
+			if err != nil {
+				vsched.Failf("harness: dial: %v", err)
+				return
+			}
+			x1.Send(ConnectPacket(ConnectOpts{ClientID: "x", Clean: false, KeepAlive: 65535}))
+			t.w.Settle()
+			x1.Send(&refcodec.Packet{Type: refcodec.SUBSCRIBE, ID: 1, Topics: [][]byte{[]byte("t")}, QoSs: []byte{1}})
+			t.w.Settle()
+			x1.Send(&refcodec.Packet{Type: refcodec.DISCONNECT})
+			t.w.Settle()
+			x2, err := t.w.Dial("X2")
+			if err != nil || vsched.Failed() {
+				return
+			}
+			x2.Dead = true // the reactor owns the reading side
+			vsched.Mark()
+			ack := byte(refcodec.UNSUBACK)
+			req := &refcodec.Packet{Type: refcodec.UNSUBSCRIBE, ID: 9, Topics: [][]byte{[]byte("t")}}
+			if kind != "UNSUBSCRIBE" {
+				ack = refcodec.SUBACK
+				req = &refcodec.Packet{Type: refcodec.SUBSCRIBE, ID: 9, Topics: [][]byte{[]byte("t")}, QoSs: []byte{0}}
+			}
+			r := startReactor("X2", x2, func(pk *refcodec.Packet) bool { return pk.Type == ack }, func() {
+				p.rc.Conn.Write(refcodec.Encode(&refcodec.Packet{Type: refcodec.PUBLISH, Topic: []byte("t"), QoS: 1, ID: 70, Payload: []byte("probe")}))
+			})
+			x2.Conn.Write(append(refcodec.Encode(ConnectPacket(ConnectOpts{ClientID: "x", Clean: false, KeepAlive: 65535})), refcodec.Encode(req)...))
+			t.settleExcept()
+			if r.ackAt < 0 {
+				vsched.Failf("the %s was not acknowledged: %s", kind, Describe(r.pkts))
+				return
+			}
+			var after []*refcodec.Packet
+			for _, pk := range r.pkts[r.ackAt:] {
+				if pk.Type == refcodec.PUBLISH && string(pk.Payload) == "probe" {
+					after = append(after, pk)
+				}
+			}
+			if kind == "UNSUBSCRIBE" {
+				if len(after) > 0 {
+					vsched.Failf("a message published after the client had received the UNSUBACK was still delivered to it: %s", Describe(r.pkts))
+					return
+				}
+			} else if len(after) != 1 || after[0].QoS != 0 {
+				vsched.Failf("after the SUBACK granting QoS 0 the probe (published at QoS 1) was delivered as %s", Describe(after))
+				return
+			}
+			// and it stays that way
+			p.rc.Send(&refcodec.Packet{Type: refcodec.PUBLISH, Topic: []byte("t"), QoS: 1, ID: 71, Payload: []byte("probe2")})
+			t.settleExcept()
+			n, q := 0, byte(9)
+			for _, pk := range r.pkts {
+				if pk.Type == refcodec.PUBLISH && string(pk.Payload) == "probe2" {
+					n++
+					q = pk.QoS
+				}
+			}
+			if kind == "UNSUBSCRIBE" && n != 0 {
+				vsched.Failf("a later publish on the unsubscribed filter was delivered %d times", n)
+				return
+			}
+			if kind != "UNSUBSCRIBE" && (n != 1 || q != 0) {
+				vsched.Failf("a later publish on the re-subscribed filter (granted QoS 0) was delivered %d times at QoS %d", n, q)
+				return
+			}
+			vsched.Logf("ok")
+		}})
+	}
 	for _, sc := range scs {
 		if c.Expired() || c.HasViolation() {
 			return
